@@ -82,6 +82,34 @@ def run_pair(acc: Acc, ca: Cfg, cb: Cfg, variant: str) -> None:
     acc.outcome(("pair", len(sp1.rules_dict), len(sp2.rules_dict)))
 
 
+def r_configs(tier: str) -> List[Tuple[Any, Any, str]]:
+    """Regular languages (R-domain): every class has a first-letter and a last-letter
+    decomposition, classes are shared between them, so the finder meets alternative rules,
+    one class with several partners, and candidates it has to give up again."""
+    from mc import domain_r as dr
+    from mc.search import RCfg
+
+    langs = list(dr.languages(2))
+    res = []
+    if tier == "quick":
+        packs = [("r", "r")]
+        variants = ("plain+exhausted", "eqpath+exhausted")
+    else:
+        packs = [("r", "r"), ("rL", "rR"), ("r2", "r2R"), ("r", "rL")]
+        variants = ("plain", "eqpath", "plain+exhausted", "eqpath+exhausted")
+    for pa, pb in packs:
+        for a in langs:
+            for b in langs:
+                # only pairs with equal counting sequences up to size 4 can be matched at all;
+                # a sample of the others is kept (every 11th) for the "returns None" side
+                same = all(dr.counts(a, n) == dr.counts(b, n) for n in range(5))
+                if not same and (hash((a, b)) % 11):
+                    continue
+                for v in variants:
+                    res.append((RCfg.of(a, pa, "RuleDB"), RCfg.of(b, pb, "RuleDB"), v))
+    return res
+
+
 def configs(tier: str) -> List[Tuple[Cfg, Cfg, str]]:
     classes = dw.start_classes("quick")
     packs = ["base", "sym", "inf1", "two"] if tier == "quick" else ["base", "sym", "inf1", "inf2", "norm+sym", "two", "sfac", "oneway+inf1"]
@@ -93,7 +121,7 @@ def configs(tier: str) -> List[Tuple[Cfg, Cfg, str]]:
                 for b in classes:
                     for variant in ("plain", "eqpath") + (("plain+exhausted", "eqpath+exhausted") if pk in ("two", "sfac") else ()):
                         res.append((Cfg.of(a.with_(stats=st), pk, "RuleDB"), Cfg.of(b.with_(stats=st), pk, "RuleDB"), variant))
-    return res
+    return res + r_configs(tier)
 
 
 def _worker(arg) -> Acc:
@@ -111,10 +139,14 @@ def _worker(arg) -> Acc:
 
 
 def run(ctx: Ctx) -> None:
+    from mc import domain_r as dr
+
+    dr.self_test()
     cfgs = configs(ctx.tier)
     ctx.rule = (
         "all ordered pairs of the quick start classes x packs x both finder variants (ParallelSpecFinder, "
-        "EqPathParallelSpecFinder), both searchers fresh for every call; non-trivial = distinct (first, second, finder) for "
+        "EqPathParallelSpecFinder), both searchers fresh for every call; plus ordered pairs of the regular languages with <= 2 states "
+        "(R-domain: first-letter and last-letter decompositions, alternative rules, shared classes), both universes fully expanded first; non-trivial = distinct (first, second, finder) for "
         "which a pair of specifications was returned and validated"
     )
     ctx.assumptions = ["C01/C02/C12 oracles on the returned pair", "sizes <= %d" % N]
